@@ -187,7 +187,7 @@ Proof.
 Qed.
 
 (* ---------------------------------------------------------------- publish(): the PUBLISH goes out, the broker answers *)
-Theorem publish_is_sent_and_answered : forall w r s2 op ps q,
+Theorem publish_is_sent_and_answered_rt : forall w r s2 op ps q,
   Hc w ->
   ob_ctl (s_ob (w_sess w)) = [] -> ob_rel (s_ob (w_sess w)) = [] -> ob_ret (s_ob (w_sess w)) = [] ->
   rt_ka_ms (s_rt (w_sess w)) = 0 -> rt_next_ping (s_rt (w_sess w)) = None -> rt_ping_timeout (s_rt (w_sess w)) = None ->
@@ -203,7 +203,8 @@ Theorem publish_is_sent_and_answered : forall w r s2 op ps q,
     w_broker w1 = 1 /\ w_txbuf w1 = [] /\ w_last_arrival w1 = w_now w /\ rt_ka_ms (s_rt (w_sess w1)) = 0 /\
     rt_next_ping (s_rt (w_sess w1)) = None /\ rt_ping_timeout (s_rt (w_sess w1)) = None /\
     ob_ctl (s_ob (w_sess w1)) = [] /\ ob_rel (s_ob (w_sess w1)) = [] /\
-    ob_ret (s_ob (w_sess w1)) = [sent_entry e] /\ re_pid e = op_pid op.
+    ob_ret (s_ob (w_sess w1)) = [sent_entry e] /\ re_pid e = op_pid op /\
+    s_rt (w_sess w1) = note_outbound_activity (s_rt s2) (w_now w) /\ ob_buf (s_ob (w_sess w1)) = ob_buf (s_ob s2).
 Proof.
   intros w r s2 op ps q Hcw Ec El Er Hka Hnp Hpt Hbr Htx Hiq Hla Hm Hq1 Hq0 Hps Hid.
   pose proof Hcw as [Hs [Hl [I [Hmps [_ [HB HF]]]]]].
@@ -267,7 +268,32 @@ Proof.
   exists w3, bs, cap, off, e. split; [reflexivity|]. split; [exact Hb|]. split; [exact Hw3|]. split; [exact Vi|].
   split; [exact Hc3|]. split; [rewrite R3; cbn [w2 w_sess upd_sess]; exact Hrd2|]. split; [rewrite N3; reflexivity|].
   split; [exact Vb|]. split; [exact Vt|]. split; [exact Vl|]. split; [rewrite Ert3; cbn [note_outbound_activity rt_with_timers rt_ka_ms]; rewrite Hka2; exact Hka|].
-  split; [exact (proj1 Hrt3)|]. split; [exact (proj2 Hrt3)|]. split; [exact Ec3|]. split; [exact El3|]. split; [exact Er3|exact Epid].
+  split; [exact (proj1 Hrt3)|]. split; [exact (proj2 Hrt3)|]. split; [exact Ec3|]. split; [exact El3|]. split; [exact Er3|]. split; [exact Epid|]. split; [exact Ert3|exact Eb3].
+Qed.
+
+
+Theorem publish_is_sent_and_answered : forall w r s2 op ps q,
+  Hc w ->
+  ob_ctl (s_ob (w_sess w)) = [] -> ob_rel (s_ob (w_sess w)) = [] -> ob_ret (s_ob (w_sess w)) = [] ->
+  rt_ka_ms (s_rt (w_sess w)) = 0 -> rt_next_ping (s_rt (w_sess w)) = None -> rt_ping_timeout (s_rt (w_sess w)) = None ->
+  w_broker w = 1 -> w_txbuf w = [] -> w_inq w = [] -> w_last_arrival w <= w_now w ->
+  publish_middle (w_sess w) true r = (s2, MRetained op) ->
+  effective_qos (w_sess w) (pr_qos r) = q -> q <> Q0 -> pr_props r = PSlice ps -> op_pid op < 65536 ->
+  exists w1 bs cap off e,
+    op_publish FUEL r w = (w1, ODone (Some op)) /\
+    enc_publish cap (pub_request r q (op_pid op)) = SOk off bs /\
+    w_wire w1 = w_wire w ++ bs /\
+    w_inq w1 = [(w_now w, ack_head q :: [2] ++ u16_be (op_pid op))] /\
+    Hc w1 /\ s_reader (w_sess w1) = s_reader (w_sess w) /\ w_now w1 = w_now w /\
+    w_broker w1 = 1 /\ w_txbuf w1 = [] /\ w_last_arrival w1 = w_now w /\ rt_ka_ms (s_rt (w_sess w1)) = 0 /\
+    rt_next_ping (s_rt (w_sess w1)) = None /\ rt_ping_timeout (s_rt (w_sess w1)) = None /\
+    ob_ctl (s_ob (w_sess w1)) = [] /\ ob_rel (s_ob (w_sess w1)) = [] /\
+    ob_ret (s_ob (w_sess w1)) = [sent_entry e] /\ re_pid e = op_pid op.
+Proof.
+  intros w r s2 op ps q Hcw Ec El Er Hka Hnp Hpt Hbr Htx Hiq Hla Hm Hq1 Hq0 Hps Hid.
+  destruct (publish_is_sent_and_answered_rt w r s2 op ps q Hcw Ec El Er Hka Hnp Hpt Hbr Htx Hiq Hla Hm Hq1 Hq0 Hps Hid)
+    as [w1 [bs [cap [off [e [A1 [A2 [A3 [A4 [A5 [A6 [A7 [A8 [A9 [A10 [A11 [A12 [A13 [A14 [A15 [A16 [A17 _]]]]]]]]]]]]]]]]]]]]]].
+  exists w1, bs, cap, off, e. repeat (split; [assumption|]). assumption.
 Qed.
 
 (* ---------------------------------------------------------------- the whole exchange: publish(), then one poll() *)
